@@ -17,6 +17,10 @@ import CweModel.C10.PropagationProofs
 import CweModel.C10.ControlFlowProofs
 import CweModel.C10.StackAlignProofs
 import CweModel.C10.SpecProofs
+import CweModel.C10.RunPropagation
+import CweModel.C10.RunDeadVars
+import CweModel.C10.RunStackAlign
+import CweModel.C10.RunControlFlow
 
 namespace CweModel.C10
 open CweModel CweModel.IR CweModel.Sem CweModel.C12
@@ -62,15 +66,165 @@ theorem zip_map_mem {α β : Type} (f : α → β) (l : List α) (x : α × β) 
     · exact ⟨List.mem_cons_self, rfl⟩
     · exact ⟨List.mem_cons_of_mem _ (ih h).1, (ih h).2⟩
 
-/-- **C10-trivial-preserves (composition, partial).** The stage `Project::substitute_trivial_expressions`
-of `normalize_optimize` preserves the behaviour of every function, in the sense of the property, for ALL
-size-consistent programs, states and fuels. -/
-theorem normalizeOptimize_preserves_partial (env : Env) (ptr align : Nat) :
+/-- **C10-trivial-preserves.** The stage `Project::substitute_trivial_expressions` of `normalize_optimize`
+preserves the behaviour of every function, in the sense of the property, for ALL size-consistent programs,
+states and fuels. -/
+theorem substTrivialProgram_preserves (env : Env) (ptr align : Nat) :
     PassPreserves env ptr align substTrivialProgram := by
   intro p hp ss hss σ fuel hσ _ hok hns
   obtain ⟨hmem, himg⟩ := zip_map_mem _ _ ss (by simpa [substTrivialProgram, mapProgramSubs] using hss)
   rw [himg, substTrivial_runSub env ss.1 (hp ss.1 hmem) σ fuel hσ hok hns]
   exact tracesAgree_refl _
+
+/-! ### the composition of the five stages
+
+`NormalizeOptimizePreserves` above compares raw traces. That is more than the property says and more than dead
+variable elimination delivers: the property compares the register state "at every call, return and dead end",
+while the reference interpreter also records a state snapshot in every indirect-jump event, and
+`remove_dead_var_assignments` legitimately removes an assignment to a physical register that is dead at the
+known targets of an indirect jump. The composition is therefore stated on observable traces (`Spec.observable`
+drops the snapshot of indirect-jump events, exactly what the driver compares). -/
+
+/-- the composition theorem in full, on observable traces -/
+def NormalizeOptimizePreservesObs (env : Env) (arch : String) (phys : VarSet) : Prop :=
+  ∀ p : Program, WellSizedProgram p env.sp.size →
+    ∀ ss ∈ p.subs.zip (normalizeOptimize arch env.sp phys p).subs,
+      ∀ (σ : State) (fuel : Nat), StateWF σ → (σ.getReg env.sp).toNat % 16 = 0 →
+        (∀ b bs, ss.1.term.blocks = b :: bs → RunOk env ss.1.term.blocks fuel b.tid σ 0) →
+        NoStuck (runSub env ss.1.term σ fuel) →
+        tracesAgree ((runSub env ss.1.term σ fuel).map observable)
+          ((runSub env ss.2.term σ fuel).map observable) = true
+
+/-- the program after the first two stages (expression propagation, trivial expression substitution) -/
+def stage2 (p : Program) : Program := substTrivialProgram (propagateProgram p)
+/-- ... and after dead variable elimination -/
+def stage3 (phys : VarSet) (p : Program) : Program := removeDeadProgram phys (stage2 p)
+
+/-- the image of the function `s` of `p` after the first two stages -/
+def stage2Sub (p : Program) (s : Term Sub) : Term Sub :=
+  mapSubBlocks (mapBlkExprs substTrivial)
+    (propagateSub (computeTables (mergeAssignmentsProgram p)) (mapSubBlocks mergeDefAssignmentsToSameVar s))
+
+theorem stage2_subs (p : Program) : (stage2 p).subs = p.subs.map (stage2Sub p) := by
+  simp only [stage2, substTrivialProgram, mapProgramSubs, propagateProgram_subs, List.map_map]
+  rfl
+
+/-- The hypotheses of the composition theorem that are not hypotheses of the property: the architecture,
+the structural conditions on the control flow (on the input program for expression propagation, on the
+intermediate programs for dead variable elimination and control flow propagation), and that the two fuelled
+fixpoint iterations of the model reached a post-fixpoint. All of them are executable conditions on the input
+program or on outputs of the pass models; the driver evaluates them on every generated case. -/
+structure OptimizeHyp (env : Env) (arch : String) (phys : VarSet) (p : Program) : Prop where
+  arch64 : arch = "x86_64"
+  sp8 : env.sp.size = 8
+  regs : ∀ v ∈ env.physRegs, v ∈ phys
+  cfg : ∀ s ∈ p.subs, subCfgOk p s = true
+  tablesClosed : tablesClosed (mergeAssignmentsProgram p) (computeTables (mergeAssignmentsProgram p)) = true
+  tablesReach : tablesReach (mergeAssignmentsProgram p) (computeTables (mergeAssignmentsProgram p)) = true
+  shape₂ : ∀ s ∈ (stage2 p).subs, dveShapeOk s.term.blocks = true
+  alive₂ : ∀ s ∈ (stage2 p).subs, aliveClosed phys s.term.blocks (computeAliveVars phys s.term.blocks) = true
+  cf₃ : CfOk (stage3 phys p)
+
+theorem observable_ne_fuel {e : Event} (h : e ≠ .outOfFuel) : observable e ≠ .outOfFuel := by
+  cases e <;> simp_all [observable]
+
+theorem isStuck_observable (e : Event) : isStuck (observable e) = isStuck e := by
+  cases e <;> rfl
+
+theorem NoStuck.of_map_observable {a b : List Event} (h : a.map observable = b.map observable) (hb : NoStuck b) :
+    NoStuck a := by
+  intro e he
+  have : observable e ∈ b.map observable := by rw [← h]; exact List.mem_map_of_mem he
+  obtain ⟨e', he', heq⟩ := List.mem_map.mp this
+  rw [← isStuck_observable, ← heq, isStuck_observable]
+  exact hb e' he'
+
+theorem FuelLe.map_observable {a b : List Event} (h : CF.FuelLe a b) :
+    CF.FuelLe (a.map observable) (b.map observable) := by
+  rcases h with rfl | ⟨pre, rest, rfl, rfl, hp⟩
+  · exact .inl rfl
+  · refine .inr ⟨pre.map observable, rest.map observable, by simp [observable], by simp, ?_⟩
+    intro hm
+    obtain ⟨e, he, heq⟩ := List.mem_map.mp hm
+    by_cases hf : e = .outOfFuel
+    · exact hp (hf ▸ he)
+    · exact observable_ne_fuel hf heq
+
+/-- **C10-composition (partial).** `Project::normalize_optimize` — all five stages: expression propagation,
+trivial expression substitution, dead variable elimination, control flow propagation, stack alignment
+substitution — preserves the observable behaviour of every function: for every size-consistent program `p`
+satisfying `OptimizeHyp`, every function `ss.1` of `p` and its image `ss.2`, every well-formed initial state with a
+16-byte aligned stack pointer and every fuel, if the run of `ss.1` keeps the boolean discipline (H1) and does
+not get stuck (H3), and the run of the function after the first two stages keeps H2 (`RunLocals`:
+non-physical registers are assigned before they are read and do not live across calls), then the observable
+traces agree (`Sem.tracesAgree`: equal, or equal up to the point where the unoptimised run, which executes the
+forwarding blocks the optimised one skips, runs out of fuel).
+
+Partial with respect to `NormalizeOptimizePreservesObs`: the hypotheses `OptimizeHyp` (see there) and that H2
+is assumed for the run of the intermediate function `stage2Sub p ss.1` rather than derived from H2 of the run of
+`ss.1`. -/
+theorem normalizeOptimize_preserves_partial (env : Env) (arch : String) (phys : VarSet) (p : Program)
+    (hp : WellSizedProgram p env.sp.size) (H : OptimizeHyp env arch phys p)
+    (ss : Term Sub × Term Sub) (hss : ss ∈ p.subs.zip (normalizeOptimize arch env.sp phys p).subs)
+    (σ : State) (fuel : Nat) (hσ : StateWF σ) (halign : (σ.getReg env.sp).toNat % 16 = 0)
+    (hok : ∀ b bs, ss.1.term.blocks = b :: bs → RunOk env ss.1.term.blocks fuel b.tid σ 0)
+    (hns : NoStuck (runSub env ss.1.term σ fuel))
+    (hloc : ∀ b bs, (stage2Sub p ss.1).term.blocks = b :: bs →
+      RunLocals env phys (stage2Sub p ss.1).term.blocks fuel b.tid σ 0 []) :
+    tracesAgree ((runSub env ss.1.term σ fuel).map observable)
+      ((runSub env ss.2.term σ fuel).map observable) = true := by
+  -- the functions of the output, stage by stage
+  have hsubs : (normalizeOptimize arch env.sp phys p).subs = p.subs.map fun s =>
+      (saSub env.sp (expectedAlignmentOf arch) [] (cfSub (stage3 phys p) (removeDeadSub phys (stage2Sub p s)))).1 := by
+    have h3 : (stage3 phys p).subs = p.subs.map fun s => removeDeadSub phys (stage2Sub p s) := by
+      simp only [stage3, removeDeadProgram, mapProgramSubs, stage2_subs, List.map_map]; rfl
+    have : normalizeOptimize arch env.sp phys p =
+        (substituteAndOnStackpointer arch env.sp (propagateControlFlow (stage3 phys p))).1 := rfl
+    rw [this, substituteAndOnStackpointer_subs, propagateControlFlow_subs, h3, List.map_map, List.map_map]
+    rfl
+  rw [hsubs] at hss
+  obtain ⟨hmem, himg⟩ := zip_map_mem _ _ ss hss
+  rw [himg]
+  generalize ss.1 = s at hmem hok hns hloc ⊢
+  -- stage 1: expression propagation (exact, transports H1)
+  have hs₁ : (s, propagateSub (computeTables (mergeAssignmentsProgram p)) (mapSubBlocks mergeDefAssignmentsToSameVar s)) ∈
+      p.subs.zip (propagateProgram p).subs := by
+    rw [propagateProgram_subs]
+    exact List.mem_iff_getElem.mpr (by
+      obtain ⟨i, hi, rfl⟩ := List.getElem_of_mem hmem
+      exact ⟨i, by simpa using hi, by simp⟩)
+  obtain ⟨e₁, ok₁⟩ := propagateProgram_preserves env p hp H.tablesClosed H.tablesReach _ hs₁ (H.cfg s hmem)
+    σ fuel hσ hok hns
+  simp only at e₁ ok₁
+  -- stage 2: trivial expression substitution (exact)
+  have hws₁ : WellSizedSub env.sp.size
+      (propagateSub (computeTables (mergeAssignmentsProgram p)) (mapSubBlocks mergeDefAssignmentsToSameVar s)).term := by
+    apply propagateProgram_wellSized hp
+    rw [propagateProgram_subs]
+    exact List.mem_map.mpr ⟨s, hmem, rfl⟩
+  have e₂ : runSub env (stage2Sub p s).term σ fuel = runSub env s.term σ fuel := by
+    unfold stage2Sub
+    rw [substTrivial_runSub env _ hws₁ σ fuel hσ ok₁ (by rw [e₁]; exact hns), e₁]
+  -- stage 3: dead variable elimination (observable traces)
+  have hm₂ : stage2Sub p s ∈ (stage2 p).subs := by
+    rw [stage2_subs]; exact List.mem_map.mpr ⟨s, hmem, rfl⟩
+  have e₃ := removeDeadSub_runSub env phys (stage2Sub p s) (H.shape₂ _ hm₂) (H.alive₂ _ hm₂) H.regs σ fuel hloc
+    (by rw [e₂]; exact hns)
+  have hns₃ : NoStuck (runSub env (removeDeadSub phys (stage2Sub p s)).term σ fuel) :=
+    NoStuck.of_map_observable e₃ (by rw [e₂]; exact hns)
+  -- stage 4: control flow propagation (the optimised run needs less fuel)
+  have hm₃ : removeDeadSub phys (stage2Sub p s) ∈ (stage3 phys p).subs := by
+    simp only [stage3, removeDeadProgram, mapProgramSubs]
+    exact List.mem_map.mpr ⟨_, hm₂, rfl⟩
+  have e₄ := propagateControlFlow_fuelLe env (stage3 phys p) H.cf₃ _ hm₃ σ fuel hns₃
+  -- stage 5: stack alignment substitution (exact)
+  have hea : expectedAlignmentOf arch = 16#64 := by rw [H.arch64]; exact expectedAlignmentOf_x86_64
+  rw [hea, saSub_runSub env _ [] σ fuel H.sp8 hσ halign]
+  -- together
+  apply CF.tracesAgree_of_fuelLe
+  have := FuelLe.map_observable e₄
+  rw [e₃, e₂] at this
+  exact this
 
 /-! ### non-vacuity: the hypotheses are satisfiable and the rules fire -/
 
